@@ -131,6 +131,10 @@ def check_format(cls, orig, rep):
 
 
 def check_case(ctx, case):
+    if case.get("kind") == "suite":
+        from .. import suite_workload
+
+        return suite_workload.run_for(ctx)
     if case["kind"] != "one":
         raise HarnessError("unknown kind")
     install_contract()
@@ -185,6 +189,11 @@ def check_case(ctx, case):
 
 
 def run(ctx):
+    from .. import suite_workload
+
+    os_ = __import__("os")
+    os_.makedirs(os_.path.join(__import__("vf.load").load.VERIF, ".work"), exist_ok=True)
+    suite_workload.run_for(ctx)
     for case in cases(ctx):
         if ctx.expired():
             ctx.count("stopped_by_time_budget")
@@ -192,5 +201,6 @@ def run(ctx):
         ctx.run_case(check_case, case)
     if _contract["evals"]:
         ctx.count("contract_evaluations", _contract["evals"])
+        ctx.mark_reached("contract on _anonymize_value")
     else:
         ctx.mark_unreached("contract on _anonymize_value")
